@@ -114,3 +114,48 @@ Proof. intros Ekw Hc0 Hok line.
     assert (Hm : map (fun s => strip (32 :: s)) (a :: t) = a :: t).
     { clear - Hedge. induction Hedge as [|b u Hb HF IH]; [reflexivity|]. cbn [map]. rewrite strip_space_name by auto. now rewrite IH. }
     rewrite Hm. unfold nonempty_names. clear - Hedge. induction Hedge as [|b u [Hb _] HF IH]; [reflexivity|]. cbn [filter]. destruct b; [congruence|]. now rewrite IH. Qed.
+
+(* ---- the general keyword line: kw ++ " " ++ items joined by ", " ---- *)
+Definition item_ok (s : str) : Prop := ~ In 44 s /\ ~ In 58 s /\ no_edge_space s.
+Lemma name_ok_item s : name_ok s = true -> item_ok s.
+Proof. intros H. destruct (name_ok_chars s H) as [A [B _]]. repeat split; auto; apply (name_ok_edges s H). Qed.
+Lemma nospace_item s : s <> [] -> (forall c, In c s -> is_space c = false /\ c <> 44 /\ c <> 58) -> item_ok s.
+Proof. intros Hne H. split; [intro Hc; now destruct (H _ Hc) as [_ [? _]]|]. split; [intro Hc; now destruct (H _ Hc) as [_ [_ ?]]|].
+  split; auto. assert (Hs : strip s = s) by (apply strip_nospace; intros c Hc; apply (H c Hc)).
+  split; [apply lstrip_nospace; intros c Hc; apply (H c Hc)|]. unfold strip in Hs. rewrite lstrip_nospace in Hs; auto. intros c Hc; apply (H c Hc). Qed.
+Lemma print_Z_item z : item_ok (print_Z z).
+Proof. unfold print_Z. destruct (Z.ltb_spec z 0) as [Hneg|Hpos].
+  - destruct (print_pos_spec (S (Z.to_nat (Z.log2 (- z)))) (- z)) as [A [B _]]; [lia|pose proof (Z.log2_nonneg (- z)); lia|].
+    apply nospace_item; [discriminate|]. intros c [<-|Hc]; [repeat split; discriminate|]. destruct (A c Hc) as [d [Hd ->]].
+    split; [now apply digit_not_space|]. split; lia.
+  - destruct (print_pos_spec (S (Z.to_nat (Z.log2 z))) z) as [A [B _]]; [lia|pose proof (Z.log2_nonneg z); lia|].
+    apply nospace_item; auto. intros c Hc. destruct (A c Hc) as [d [Hd ->]]. split; [now apply digit_not_space|]. split; lia. Qed.
+Lemma print_Z_no_nl z : ~ In 10 (print_Z z) /\ ~ In 13 (print_Z z).
+Proof. assert (H : forall c, In c (print_Z z) -> c = 45 \/ 48 <= c).
+  { unfold print_Z. destruct (Z.ltb_spec z 0) as [Hneg|Hpos].
+    - destruct (print_pos_spec (S (Z.to_nat (Z.log2 (- z)))) (- z)) as [A _]; [lia|pose proof (Z.log2_nonneg (- z)); lia|].
+      intros c [<-|Hc]; [now left|]. destruct (A c Hc) as [d [Hd ->]]. right. lia.
+    - destruct (print_pos_spec (S (Z.to_nat (Z.log2 z))) z) as [A _]; [lia|pose proof (Z.log2_nonneg z); lia|].
+      intros c Hc. destruct (A c Hc) as [d [Hd ->]]. right. lia. }
+  split; intro Hc; destruct (H _ Hc) as [E|E]; try discriminate; lia. Qed.
+Lemma split_join_items items : items <> [] -> Forall (fun s => ~ In 44 s) items ->
+  split_on 44 (32 :: join k_COMMASP items) = map (cons 32) items.
+Proof. apply split_join_names. Qed.
+
+Theorem fields_line kw c0 kw' items : kw = c0 :: kw' ++ [58] -> is_space c0 = false -> items <> [] -> Forall item_ok items ->
+  let line := kw ++ k_SP ++ join k_COMMASP items in
+  strip line = line /\ starts_with kw line = true /\ fields kw line = items.
+Proof. intros Ekw Hc0 Hne Hok line.
+  assert (H44 : Forall (fun s => ~ In 44 s) items) by (eapply Forall_impl; [|exact Hok]; intros s Hs; apply Hs).
+  assert (H58 : Forall (fun s => ~ In 58 s) items) by (eapply Forall_impl; [|exact Hok]; intros s Hs; apply Hs).
+  assert (Hedge : Forall no_edge_space items) by (eapply Forall_impl; [|exact Hok]; intros s Hs; apply Hs).
+  destruct (join_last_keeps items Hne Hedge) as [x [s [Ej [S1 S2]]]].
+  split; [|split].
+  - unfold line. rewrite Ej.
+    replace (kw ++ k_SP ++ x ++ s) with (c0 :: (kw' ++ [58] ++ k_SP ++ x) ++ s) by (rewrite Ekw; cbn [app]; rewrite <- !app_assoc; reflexivity).
+    now apply strip_keep.
+  - apply starts_with_app.
+  - unfold fields, line. rewrite (remove_all_prefix kw _ 58); [|rewrite Ekw; discriminate|rewrite Ekw; right; apply in_or_app; right; now left|].
+    2:{ unfold k_SP. intros [H|H]; [discriminate|]. now apply (join_no_colon items H58). }
+    unfold k_SP. cbn [app]. rewrite split_join_items by auto. rewrite map_map.
+    clear - Hedge. induction Hedge as [|b u Hb HF IH]; [reflexivity|]. cbn [map]. rewrite strip_space_name by auto. now rewrite IH. Qed.
